@@ -37,6 +37,8 @@ type c01Cfg struct {
 	TTLs       bool   `json:"ttls"`
 	Delay      int    `json:"h1_delay_mode"`
 	Ranges     bool   `json:"ranges"`
+	SameShard  bool   `json:"keys_share_a_shard"`
+	SlowRange  bool   `json:"range_callbacks_take_time"`
 }
 
 type loadTok struct {
@@ -125,6 +127,15 @@ func c01History(cfg c01Cfg, seed int64) ([]hop, error) {
 		return nil, err
 	}
 	defer api.close()
+	// key table: either 0..Keys-1 (spread over the shards) or Keys keys that all live in one
+	// shard, so that a Range inside that shard has neighbours that other clients are changing
+	keyTab := make([]int, 0, cfg.Keys)
+	want := api.store.VerifShardOf(0)
+	for k := 0; len(keyTab) < cfg.Keys; k++ {
+		if !cfg.SameShard || api.store.VerifShardOf(k) == want {
+			keyTab = append(keyTab, k)
+		}
+	}
 	logs := make([][]hop, cfg.Clients)
 	var wg sync.WaitGroup
 	start := make(chan struct{})
@@ -136,7 +147,7 @@ func c01History(cfg c01Cfg, seed int64) ([]hop, error) {
 			lg := make([]hop, 0, cfg.Ops+64)
 			<-start
 			for i := 0; i < cfg.Ops; i++ {
-				k := wr.Intn(cfg.Keys)
+				k := keyTab[wr.Intn(cfg.Keys)]
 				x := wr.Intn(100)
 				switch {
 				case x < 28:
@@ -163,6 +174,17 @@ func c01History(cfg c01Cfg, seed int64) ([]hop, error) {
 					api.rangef(func(rk int, rv int64) bool {
 						at := tick()
 						lg = append(lg, hop{Client: cl, Kind: opRange, Key: rk, Val: rv, Call: prev, Ret: at})
+						if cfg.SlowRange {
+							// a user callback that takes time (the next visit's interval starts after it)
+							switch wr.Intn(4) {
+							case 0:
+								time.Sleep(time.Duration(20+wr.Intn(200)) * time.Microsecond)
+							case 1:
+								for y := 1 + wr.Intn(20); y > 0; y-- {
+									runtime.Gosched()
+								}
+							}
+						}
 						prev = tick()
 						return true
 					})
@@ -374,7 +396,7 @@ func runC01(r *Run) {
 		v := variants[n%len(variants)]
 		cfg := c01Cfg{Kind: v.kind, Doorkeeper: v.doorkeeper, Pool: v.pool,
 			MaxSize: sizes[rng.Intn(len(sizes))], Clients: 4 + rng.Intn(13), Ops: 150 + rng.Intn(251), Keys: 3 + rng.Intn(10),
-			TTLs: rng.Intn(2) == 0, Delay: rng.Intn(3), Ranges: rng.Intn(3) > 0}
+			TTLs: rng.Intn(2) == 0, Delay: rng.Intn(3), Ranges: rng.Intn(3) > 0, SameShard: rng.Intn(2) == 0, SlowRange: rng.Intn(2) == 0}
 		delayMode.Store(int32(cfg.Delay))
 		hist, err := c01History(cfg, rng.Int63())
 		if err != nil {
